@@ -315,7 +315,22 @@ def _known_index_with_cast(case, failure) -> bool:
     return v is not None and _variant_passes(v)
 
 
+def _known_boundscheck_nested_conditional(case, failure) -> bool:
+    """a program with a loopy call (pytato then leaves loopy's bounds check
+    on) in which a conditional is inlined into the CONDITION of another one
+    (where(maximum(z, z), ...)): the failure disappears when the operands
+    of where / maximum / minimum that are conditionals themselves are
+    stored"""
+    COND = ("where", "maximum", "minimum")
+    if not any(n["op"] == "call_loopy" for n in case["nodes"]):
+        return False
+    ops = _derived(case, lambda n: n["op"] in COND)
+    v = _store(case, lambda n, pos: n["op"] in COND, ops)
+    return v is not None and _variant_passes(v)
+
+
 KNOWN_PREDICATES = {
+    "boundscheck_nested_conditional": _known_boundscheck_nested_conditional,
     "bitwise_under_cast": _known_bitwise_under_cast,
     "index_with_cast": _known_index_with_cast,
     "where_nonbool_condition": _known_where_nonbool_condition,
